@@ -32,11 +32,12 @@ def _job_of(mod, func):
 
 REGISTRY = {
     "C01": dict(
-        jobs=_herm_jobs("c01"),
-        job_of_config=_job_of("vf.props.herm", "c01"),
+        jobs=lambda tier, seed: _herm_jobs("c01")(tier, seed) + [("vf.props.herm", "dtype_twin", c) for c in __import__("vf.props.herm", fromlist=["x"]).dtype_twin_configs(tier, True)],
+        job_of_config=lambda cfg: ("vf.props.herm", "dtype_twin" if cfg.get("_job") == "dtype_twin" else "c01"),
         technique="real block_diagonalize executed on z3-backed symbolic matrices (carriers A: numeric dyadic H0 + real diagonal solver incl. masks; "
         "B: documented solve_sylvester callback with symbolic/rational spectrum); own dense Cauchy triple product U^dagger H U from returned U, U^dagger and the input terms; "
-        "z3 decides `exists inputs: lhs != rhs` per order for kept and eliminated positions",
+        "z3 decides `exists inputs: lhs != rhs` per order for kept and eliminated positions; dtype-branch twin (concrete, declared): the same code on float64 / complex128 / mixed / int numpy inputs "
+        "at one dyadic point per configuration must reproduce the symbolic result evaluated there and leave the inputs unmodified",
         bounds=HERM_BOUNDS,
         assumptions=COMMON_ASSUMPTIONS + ["sparse-valued perturbations and the scipy.sparse branch of the diagonal solver are outside (cannot hold symbolic payloads)"],
         timeout_s={"quick": 300, "thorough": 1500},
@@ -72,8 +73,9 @@ REGISTRY = {
             [("vf.props.nonherm", "c05", c) for c in configs.hermitian_configs(tier, hermitian=False)]
             + [("vf.props.nonherm", "c05_vs_hermitian", dict(c, _vs=1, max_order=min(c["max_order"], 2) if (c.get("spectrum") in ("sym", "symdeg") and sum(c["sizes"]) >= 4) else c["max_order"]))
                for c in configs.hermitian_configs(tier, hermitian=True) if c["max_order"] <= 3 or tier == "thorough"]
+            + [("vf.props.herm", "dtype_twin", c) for c in __import__("vf.props.herm", fromlist=["x"]).dtype_twin_configs(tier, False)]
         ),
-        job_of_config=lambda cfg: ("vf.props.nonherm", "c05_vs_hermitian" if cfg.get("_vs") else "c05"),
+        job_of_config=lambda cfg: ("vf.props.herm", "dtype_twin") if cfg.get("_job") == "dtype_twin" else ("vf.props.nonherm", "c05_vs_hermitian" if cfg.get("_vs") else "c05"),
         technique="real block_diagonalize(hermitian=False) executed on symbolic general complex matrices (carrier B: complex symbolic/rational spectrum via callback solver; "
         "carrier A: real diagonal solver with symmetric and asymmetric masks); z3 decides U_inv U = U U_inv = 1, U_inv H U = H_tilde on kept / 0 on eliminated (own Cauchy products), "
         "the gauge condition, and equality with the Hermitian-mode outputs on Hermitian symbolic input (two real runs)",
@@ -97,10 +99,11 @@ REGISTRY = {
     ),
     "C12": dict(
         jobs=lambda tier, seed: __import__("vf.props.relations", fromlist=["x"]).configs_c12a(tier),
-        job_of_config=_job_of("vf.props.relations", "c12a"),
+        job_of_config=lambda cfg: ("vf.props.relations", "c12_lazy_formats" if cfg.get("_job") == "lazy_formats" else "c12a"),
         technique="2-safety (non-interference) query on the real block_diagonalize: Hamiltonian terms of order m<=n share variables x, all other terms get independent variables y / y'; "
         "z3 decides output_n(x,y) != output_n(x,y') for H_tilde, U, U_inv at every order n of the box; plus the concrete call log of a lazily defined Hamiltonian BlockSeries, "
-        "exhaustive over output x block x order of the box: definition evaluates zeroth order only, a request at n evaluates only m<=n componentwise and nothing twice",
+        "exhaustive over output x block x order of the box: definition evaluates zeroth order only, a request at n evaluates only m<=n componentwise and nothing twice "
+        "(also whole request schedules; unblocked lazy series through subspace_indices / complete eigenvectors / implicit mode with the real sparse LU; H_0 with an exactly vanishing block)",
         bounds={
             "quick": "layouts {1|1,1|2,2|1,1|1|1}, both modes; 1 parameter: terms at orders 1..4, requests to order 3; 2 parameters: terms to total order 2, requests to total order 2; full-diag and mask variants on carrier A",
             "thorough": "adds 2|2 and 1|1|2, two parameters with terms to total order 3",
